@@ -1,13 +1,13 @@
 CONSTANTS
   Impl = "intended"
   Codecs = {"h264", "h265"}
-  MTUs = {128, 1200}
-  Sizes = {"s", "b"}
-  MaxNals = 4
-  Openers = {FALSE}
-  Aggs = {TRUE, FALSE}
-  Types264 = {1, 5, 7, 8}
-  Types265 = {1, 19, 32, 39}
+  MTUs = {20, 128}
+  Sizes = {"s", "m", "m+", "g1", "g2", "g0"}
+  MaxNals = 3
+  Openers = {FALSE, TRUE}
+  Aggs = {TRUE}
+  Types264 = {1, 5, 7}
+  Types265 = {1, 19, 39}
   Emit = TRUE
 INIT Init
 NEXT Next
